@@ -1071,6 +1071,14 @@ class Engine:
         for exc, c, label in inner_raises:
             self.may_raise(exc, z3.Exists([i], And(i >= 0, i < src.v.len, c)), "comp:" + label)
         out = fresh_sv(SEQ(val.ty if val.ty.kind != "none" else INT), "comp", optional=False)
+        if not g.ifs:
+            # pure map: same length, element-wise
+            st.assume(out.v.len == src.v.len)
+            vflat0 = to_flat(val)
+            st.assume(z3.ForAll([i], Implies(And(i >= 0, i < src.v.len), And(*[z3.Select(a, i) == c for a, c in zip(out.v.arrs, vflat0)])),
+                                patterns=[z3.Select(out.v.arrs[0], i)]))
+            out.tag = ("map", src)
+            return out
         emb = z3.Function(fresh_name("emb"), z3.IntSort(), z3.IntSort())
         inv = z3.Function(fresh_name("inv"), z3.IntSort(), z3.IntSort())
         j = z3.Int(fresh_name("cj"))
@@ -1371,7 +1379,7 @@ class Engine:
     def assign(self, t: ast.AST, val: SV, st: State):
         if isinstance(t, ast.Name):
             lt = self.contract.locals_types.get(t.id) if self.contract else None
-            if lt and val.ty.kind != "none":
+            if lt:
                 val = self.coerce(val, parse_type(lt))
             st.store[t.id] = val
         elif isinstance(t, (ast.Tuple, ast.List)):
